@@ -136,6 +136,16 @@ def same_as_fresh(ctx, recipe, built, c) -> None:
                             f'dataset gives {show(ref)}')
 
 
+def unused_name(ds, prefix: str) -> str:
+    """the default name of a new dimension: `prefix`, or the first free `prefix_k`"""
+    if prefix not in ds.dims:
+        return prefix
+    k = 0
+    while f'{prefix}_{k}' in ds.dims:
+        k += 1
+    return f'{prefix}_{k}'
+
+
 def examine_indexes(ctx, recipe, built, c, items) -> None:
     rng = ctx.rng
     ds = built.ds
@@ -155,8 +165,18 @@ def examine_indexes(ctx, recipe, built, c, items) -> None:
             idim = rng.choice(['index', 'index', 'pt', 'sample'])
             idx_s = ';'.join(f"{kind}:{','.join(map(str, cc))}" for cc in comps)
             line = f'select {gs} {geom} {idim} {idx_s} {dsvars}'
+            # every other request for the usual name leaves the argument out: the new dimension is then the first
+            # of index, index_0, index_1 ... the dataset does not use (chosen without touching the random stream)
+            default_arg = idim == 'index' and (n + lin[0]) % 2 == 0
+            if default_arg:
+                idim = unused_name(ds, 'index')
+                line = f'select {gs} {geom} {idim} {idx_s} {dsvars}'
+                ctx.count('select:index-dimension-left-out')
             try:
-                res = c.select_indexes([native(built, c, kind, cc) for cc in comps], index_dimension=idim)
+                if default_arg:
+                    res = c.select_indexes([native(built, c, kind, cc) for cc in comps])
+                else:
+                    res = c.select_indexes([native(built, c, kind, cc) for cc in comps], index_dimension=idim)
                 out = result_str(res, idim, labels=False)
             except Exception as e:
                 res, out = None, 'ERR'
@@ -318,11 +338,20 @@ def examine_points(ctx, recipe, built, c, items) -> None:
                             ctx.oracle_fail('select-point-wrong-values', {**desc, 'point': [str(x), str(y)], 'var': nm},
                                             f'select_point gives {np.asarray(sp[nm].values).tolist()} (dims {sp[nm].dims}), cell {cc} stores {np.asarray(want.values).tolist()} (dims {want.dims})')
         via_convention = rng.random() < 0.4          # the list of points through Convention.select_points
+        # the point dimension left to its default (the first unused of point, point_0, ...) on every other such case
+        default_pdim = pdim == 'point' and (len(spts) + n_hit) % 2 == 0
+        if default_pdim:
+            pdim = unused_name(ds, 'point')
+            ctx.count('extract:point-dimension-left-out')
         for policy in ('error', 'drop'):
             line = f'extract {gs} {geom} {pdim} {policy} {hit_s} {dsvars}'
             try:
-                if via_convention:
+                if via_convention and default_pdim:
+                    res = c.select_points(spts, missing_points=policy)
+                elif via_convention:
                     res = c.select_points(spts, point_dimension=pdim, missing_points=policy)
+                elif default_pdim:
+                    res = point_extraction.extract_points(ds, spts, missing_points=policy)
                 else:
                     res = point_extraction.extract_points(ds, spts, point_dimension=pdim, missing_points=policy)
                 out = result_str(res, pdim)
